@@ -234,7 +234,7 @@ int main(int argc, char** argv) {
     auto st = xplor::explore_deviations(bound, [&](xplor::Chooser& ch) -> bool {
       Cfg cf = draw(ch, (int)ci, cvs[ci].arch);
       if (!c.mine(idx++)) return true;
-      if ((idx & 255) == 0 && c.out_of_time()) return false;
+      if (c.tick(64)) return false;
       if (!run_cfg(cf)) report(cf); else c.sample(std::string(cvs[ci].name) + " " + cf.str(), 6);
       return true;
     });
